@@ -11,6 +11,7 @@ import sys
 import tempfile
 
 from .. import observe, probes, selgen
+from ..canary_c09 import raw_state
 from ..core import subseed
 
 ID = "C10"
@@ -47,7 +48,8 @@ RULE = (
     "in the process.  Reader forms: besides RecordReader(path, selector=S) every source is also read through "
     "RecordReader(fileobj=fp, selector=S) and RecordReader('<adapter>://' [?query], fileobj=fp, selector=S) wherever the "
     "selector-less read through that form reproduces the path-based read (stream family, jsonfile, avro).  Re-iteration: every reader opened with a selector is also iterated partially, then again twice; every "
-    "record it EVER yields must satisfy a fresh selector (later-iteration yields are counted).  Equal-but-different constructor "
+    "record it EVER yields must satisfy a fresh selector (later-iteration yields are counted; thorough rotates over 8 "
+    "partial-pass patterns and iterates three more times).  Equal-but-different constructor "
     "arguments (1 / True / 1.0, 0 / False / 0.0 / -0.0 in varint / boolean / float fields of different record types, and as "
     "literals): whitelisted constructors over them in sources of both orders, and in the fresh-process comparison, where the "
     "selectors themselves are also evaluated in a different order (S1 then S2 vs S2 then S1).  Literal boundaries: selector "
@@ -55,7 +57,20 @@ RULE = (
     "escaped as control), leading / trailing blanks, over records holding exactly those values and near-misses, every "
     "adapter, text form vs Selector / CompiledSelector objects vs fresh Selector(text).  Records with record[] nesting of depth "
     ">= 2 (host -> procs -> children, also inside a grouped record) under Type.<t> selectors: observation before == after "
-    "every match, both engines, repeated matches, through stream / JSON readers.  A filter case is non-trivial when the source "
+    "every match, both engines, repeated matches, through stream / JSON readers.  Foreign SQLite source (made with the sqlite3 "
+    "module: tables 'access-log', 'access log', 'access_log' - all read as records named access_log -, '1st table', "
+    "'MixedCase', 'select'; columns 'user-name', '1col', '_x', 'Mixed Col') with 21 selectors on name(r) / names(r) / the "
+    "normalised column names.  Guard patterns (19 selectors: division / modulo guarded by != 0, `x or y` value selection, "
+    "type-dependent operations guarded by a kind / Type / has_field / name(r) test, list guards) over a sequence whose "
+    "consecutive records are decided by different operands, forward / backward / rotated: one long-lived object vs fresh "
+    "objects (exceptions included) and through stream / stream.gz / jsonfile readers.  Reader form '?selector=<text>' URL option "
+    "(text form; an adapter takes part when the option selector 'False' empties the read).  Catch-and-continue: when the "
+    "selector raises on some records, the consumer catches and re-iterates the SAME reader; for adapters whose selector-less "
+    "reader resumes after such a restart (observed per source) the yielded records and the number of errors equal those of "
+    "the post-filter skipping the raising records.  Purity also compares the raw object state (instance-dict keys of grouped "
+    "records, identity of member records / lists / slot values) before and after.  THOROUGH: sources of up to 60 records, 1 500 "
+    "random filter cases (x 3 selector forms x 4 reader forms) and 1 800 purity cases per shard, 10 fresh-process batches of "
+    "80 + fixed expressions per shard (3 interpreters each).  A filter case is non-trivial when the source "
     "holds >= 2 records; it is *discriminating* when the selector keeps some but not all records (counted per adapter, "
     "required > 0); distinct = distinct (adapter, sequence seed, expression, form)."
 )
@@ -66,7 +81,7 @@ ASSUMPTIONS = [
     "outcome of a match = truth value of the result, or the exception class; exception messages are not compared",
 ]
 SHARDS = {"quick": 8, "thorough": 16}
-BUDGET_S = {"quick": 150, "thorough": 900}
+BUDGET_S = {"quick": 600, "thorough": 1800}
 
 ADAPTERS = {
     "stream": {"ext": ".records", "multi": True},
@@ -80,6 +95,9 @@ ADAPTERS = {
     "avro": {"ext": ".avro", "multi": False},
     "csvfile": {"ext": ".csv", "multi": False},
     "sqlite": {"ext": ".sqlite", "scheme": "sqlite://", "multi": True},
+    # a database NOT written by flow.record (plain sqlite3 module): table names with '-', ' ', a leading digit, mixed case and a
+    # SQL keyword, three of them normalising to the same record name; column names that need normalising
+    "sqlite-foreign": {"ext": ".sqlite", "scheme": "sqlite://", "multi": False, "foreign": True},
 }
 FORMS = ("text", "selector", "compiled")
 ANCHORS = [
@@ -151,7 +169,16 @@ EQVAL_EXPR = [
     'str(string(-0.0)) == "-0.0"', 'get_type(dynamic(True)) == get_type(dynamic(1))', 'get_type(dynamic(1)) == get_type(dynamic(1.0))',
 ]
 
-TARGETED = TARGETED + FIELDS_EXPR + LIST_HELPER_EXPR + EQVAL_EXPR
+GUARD_EXPR = [
+    "r.total != 0 and r.used / r.total > 0.9", "r.total == 0 or r.used / r.total > 0.5", "r.total and r.used % r.total == 0",
+    'has_field(r, "total") and r.total > 1 and r.used / r.total >= 0.5', '(r.fallback or r.name) == "fb"', '(r.fallback or r.name) == "n2"',
+    "r.fallback or r.name", '(r.fallback and r.name) == "n1"', 'r.kind == "num" and r.val + 1 > 2', 'r.kind == "txt" and r.val + "x" == "threex"',
+    'r.kind != "num" or r.val * 2 > 5', 'name(r) == "c10/guard" and r.total != 0 and r.used / r.total == 1', "r.l and r.l == [\"a\"]",
+    'Type.varint > 5 and r.total != 0 and 10 / r.total < 2', 'r.total != 0 and r.used / r.total > 0.9 or r.fallback == "fb"',
+    'not (r.total == 0 or r.used / r.total < 1)', 'any(x == "a" for x in r.l) and r.total != 0 and r.used / r.total > 0',
+    '(r.total or 1) and r.used / (r.total or 1) > 0.5', 'r.kind == "num" and r.val % 2 == 1 or r.kind == "txt" and lower(r.val) == "x"',
+]
+TARGETED = TARGETED + FIELDS_EXPR + LIST_HELPER_EXPR + EQVAL_EXPR + GUARD_EXPR
 # expressions that raise on some or all records: both sides must raise alike
 RAISING = [
     'r.n + "x" == 1', 'field_regex(r, ["s"], "(")', 'r.n / 0 == 1', 'r.s < 1', 'undefined_name == 1', 'r.s.upper() == "X"', 'r.n > "a"',
@@ -167,7 +194,7 @@ COLD_FIXED = [
     'any(f.name == "n" for f in fields("varint"))', 'any(f.name == "t" for f in fields("string"))', '"hello" in lower(r.l)',
     'field_contains(r, ["l", "sl"], ["hello"])', "r.k == 1", "r.k >= 0 or r.f > 1", '"Hello" in r.l', "r.n == r.k", 'has_field(r, "k")',
     "r.k in [0, 1, 2, 3, 5, 7, 100]",
-] + EQVAL_EXPR
+] + EQVAL_EXPR + GUARD_EXPR[:8]
 
 
 # ---- match recorder ----------------------------------------------------------------------------------
@@ -258,7 +285,34 @@ def build_pool(rng):
     (lacking k / l, having them, lacking them)."""
     pool = selgen.record_pool(rng, grouped=True) + flat_records(rng, 3)
     g = group_records(rng)
-    return pool + [g["L"][0], g["H"][0], g["L"][1]] + eqval_records() + deepnest_records(rng) + ws_records()[:6]
+    return pool + [g["L"][0], g["H"][0], g["L"][1]] + eqval_records() + deepnest_records(rng) + ws_records()[:6] + guard_records()
+
+
+FOREIGN_TABLES = ["access-log", "access log", "access_log", "1st table", "MixedCase", "select"]
+# selectors on the record name / on fields, for the foreign database (records of three tables are all named access_log)
+FOREIGN_EXPR = [
+    "name(r) == 'access_log'", "name(r) == 'access-log'", "name(r) == 'access log'", "'access_log' == name(r)", "'access_log' in names(r)",
+    "name(r) == 'access_log' and r.n > 1", "r.n > 1 and name(r) == 'access_log'", "name(r) == 'x_1st_table'", "name(r) == '1st table'",
+    "name(r) == 'MixedCase' or name(r) == 'select'", "name(r) != 'access_log'", "name(r) == 'select'", "name(r) in ['access_log', 'MixedCase']",
+    "lower(name(r)) == 'mixedcase'", "r.user_name == 'Hello'", "r.x_1col == 'x' or r.n == 1", "r.Mixed_Col == b'ab'", "has_field(r, 'x__x')",
+    "name(r) == 'access_log' and name(r) == 'MixedCase'", "not name(r) == 'access_log'", "name(r) == 'access_log' or r.n == 0",
+]
+
+
+# ---- guard patterns: and / or operands that protect the next operand ---------------------------------------------------
+def guard_records():
+    """A sequence in which consecutive records are decided by DIFFERENT operands of the guard selectors: total 0 / non-zero,
+    fallback empty / set, kind 'num' / 'txt' with a value of that type, list empty / non-empty."""
+    from flow.record import RecordDescriptor
+
+    D = RecordDescriptor("c10/guard", [("varint", "total"), ("varint", "used"), ("string", "fallback"), ("string", "name"), ("string", "kind"),
+                                         ("dynamic", "val"), ("string[]", "l")])
+    rows = [(0, 1, "", "n0", "num", 3, []), (10, 5, "fb", "n1", "txt", "three", ["a"]), (0, 3, "", "n2", "txt", "x", []),
+            (4, 4, "fb2", "n3", "num", 1, ["a", "b"]), (10, 10, "", "n4", "num", 7, ["b"]), (0, 0, "fb", "n5", "txt", "7", []),
+            (2, 1, "", "n6", "txt", "", ["a"]), (0, 9, "x", "n7", "num", 0, []), (3, 3, "", "n8", "num", 2, ["c"]), (0, 2, "", "n9", "txt", "t", [])]
+    return [D(total=t, used=u, fallback=fb, name=n, kind=k, val=v, l=l) for t, u, fb, n, k, v, l in rows]
+
+
 
 
 # ---- white space at the boundary of string / bytes literals of a selector TEXT --------------------------------------
@@ -399,6 +453,8 @@ def shape_label(rec):
         return "eqval"
     if name == "c10/ws":
         return "ws"
+    if name == "c10/guard":
+        return "guard"
     if name in ("c10/host", "c10/grouped_host"):
         return "deepnest"
     return "flat" if getattr(rec._desc, "name", "") == "c10/flat" else selgen.shape_of(rec)
@@ -407,7 +463,8 @@ def shape_label(rec):
 def pool_by_shape(seed):
     rng = random.Random(seed)
     by = {}
-    for r in selgen.record_pool(rng, grouped=True) + flat_records(rng, 6) + eqval_records() + ws_records() + deepnest_records(rng)[:3]:
+    for r in (selgen.record_pool(rng, grouped=True) + flat_records(rng, 6) + eqval_records() + ws_records() + deepnest_records(rng)[:3]
+              + guard_records()):
         by.setdefault(shape_label(r), []).append(r)
     return by
 
@@ -430,6 +487,25 @@ def write_source(url, records, adapter=None):
                 d = {k: getattr(r, k) for k in ("s", "t", "n", "m", "f", "b")}
                 f.write(json.dumps({k: (v if v is None or isinstance(v, (bool, float)) else (int(v) if isinstance(v, int) else str(v)))
                                     for k, v in d.items()}) + "\n")
+        return
+    if adapter and ADAPTERS[adapter].get("foreign"):
+        import sqlite3
+
+        path = url.split("://", 1)[-1]
+        con = sqlite3.connect(path)
+        try:
+            for t in FOREIGN_TABLES:
+                con.execute('CREATE TABLE "%s" ("user-name" TEXT, n INTEGER, "1col" TEXT, f REAL, "_x" TEXT, "Mixed Col" BLOB)' % t)
+            for i, r in enumerate(records):
+                if getattr(r._desc, "name", None) != "c10/flat":
+                    raise ValueError("the foreign database is filled from flat records only")
+                t = FOREIGN_TABLES[(i * 7 + (r.n or 0)) % len(FOREIGN_TABLES)]
+                con.execute('INSERT INTO "%s" VALUES (?, ?, ?, ?, ?, ?)' % t,
+                            (None if r.s is None else str(r.s), None if r.n is None else int(r.n), None if r.t is None else str(r.t),
+                             None if r.f is None else float(r.f), "u%d" % i, None if r.by is None else bytes(r.by)))
+            con.commit()
+        finally:
+            con.close()
         return
     concat = ADAPTERS[adapter].get("concat") if adapter else None
     if concat:
@@ -498,7 +574,7 @@ OPENERS = {
     "url?query+fileobj": lambda scheme: scheme + "://?frv=1",
 }
 SCHEMES = {"stream": "stream", "stream-gz": "stream", "stream-concat": "stream", "stream-concat-gz": "stream", "stream-concat-gzmembers": "stream",
-           "jsonfile": "jsonfile", "jsonfile-plain": "jsonfile", "avro": "avro", "csvfile": "csvfile", "sqlite": "sqlite"}
+           "jsonfile": "jsonfile", "jsonfile-plain": "jsonfile", "avro": "avro", "csvfile": "csvfile", "sqlite": "sqlite", "sqlite-foreign": "sqlite"}
 
 
 def read_all_fileobj(path, opener_url, selector=None):
@@ -589,7 +665,7 @@ def build_sequence(ctx, adapter, seed, shape=None, interleave=None):
         chosen = [rng.choice(shapes)]
         kind = "homogeneous"
     cand = [r for s in chosen for r in by[s]]
-    n = rng.randint(4, 14)
+    n = rng.randint(4, 14) if ctx.quick else rng.choice([4, 9, 14, 25, 40, 60])  # thorough: longer sources
     seq = [rng.choice(cand) for _ in range(n)]
     return seq, kind
 
@@ -685,6 +761,20 @@ def generate(ctx):
                         yield {"k": "filter", "adapter": adapter, "seq": subseed("c10", "interleave", adapter, pi, ei % 3), "interleave": list(pair),
                                "expr": e, "ek": "fields-helper" if exprs is FIELDS_EXPR else "list-helper"}
                     idx += 1
+    # a database not written by flow.record: selectors on the record name and on normalised column names
+    for ei, e in enumerate(FOREIGN_EXPR):
+        for rep in range(2):
+            if ctx.mine(idx):
+                yield {"k": "filter", "adapter": "sqlite-foreign", "seq": subseed("c10", "foreign", ei % 3, rep), "shape": "flat", "expr": e,
+                       "ek": "foreign-database"}
+            idx += 1
+    # guard patterns over a sequence whose consecutive records are decided by different operands (and its reverse / rotations)
+    for ei, e in enumerate(GUARD_EXPR):
+        for adapter in ("stream", "jsonfile", "stream-gz"):
+            for order in ("forward", "backward", "rotated"):
+                if ctx.mine(idx):
+                    yield {"k": "guard", "adapter": adapter, "order": order, "expr": e, "ek": "guard-pattern", "seq": order}
+                idx += 1
     # white space at literal boundaries: the selector TEXT holds runs of blanks, TAB, NBSP, IDEOGRAPHIC SPACE, newlines raw
     for adapter in adapters:
         if ADAPTERS[adapter].get("plain"):
@@ -746,14 +836,14 @@ def generate(ctx):
         for j in range(3):
             yield {"k": "filter", "adapter": adapter, "seq": subseed("c10", ctx.seed, ctx.shard, "flatseq", adapter, j), "shape": "flat",
                    "es": subseed("c10", ctx.seed, ctx.shard, "flatexpr", adapter, j), "force": "data"}
-    for i in range(ctx.scale(60, 700)):
+    for i in range(ctx.scale(60, 1500)):
         adapter = adapters[(i + ctx.shard) % len(adapters)]
         yield {"k": "filter", "adapter": adapter, "seq": subseed("c10", ctx.seed, ctx.shard, "seq", i),
                "es": subseed("c10", ctx.seed, ctx.shard, "expr", i)}
-    for i in range(ctx.scale(1, 4)):
+    for i in range(ctx.scale(1, 10)):
         yield {"k": "cold", "pool": subseed("c10", ctx.seed, ctx.shard, "coldpool", i), "es": subseed("c10", ctx.seed, ctx.shard, "cold", i),
-               "n": ctx.scale(24, 60)}
-    for i in range(ctx.scale(60, 800)):
+               "n": ctx.scale(24, 80)}
+    for i in range(ctx.scale(60, 1800)):
         yield {"k": "purity", "pool": subseed("c10", ctx.seed, ctx.shard, "pool", i // 10), "es": subseed("c10", ctx.seed, ctx.shard, "pexpr", i),
                "engine": ("interpreted", "compiled")[i % 2]}
 
@@ -765,6 +855,15 @@ def execute(ctx, case):
         run_cold(ctx, case)
     elif case["k"] == "textengine":
         run_textengine(ctx, case)
+    elif case["k"] == "guard":
+        seq = guard_records()
+        if case["order"] == "backward":
+            seq.reverse()
+        elif case["order"] == "rotated":
+            seq = seq[3:] + seq[:3]
+        loop_outcomes(ctx, case["expr"], seq, {"expression": case["expr"], "order": case["order"], "records": len(seq)}, "guard-pattern")
+        run_filter(ctx, case, prebuilt=(seq, "guard:" + case["order"]))
+        ctx.cell("guard-pattern", case["adapter"], case["order"])
     elif case["k"] == "eqval":
         seq = eqval_records()
         if case["order"] == "backward":
@@ -894,6 +993,7 @@ def filter_one(ctx, case, adapter, kind, url, expr, ek, form, plain, plain_obs, 
     expected, exp_exc, exp_raised_on = [], None, None
     for i, r in enumerate(plain):
         before = plain_obs[i]
+        raw_b = raw_state(r)
         try:
             s = fresh(ctx, form, expr)
             keep = (not s) or s.match(r)
@@ -905,6 +1005,9 @@ def filter_one(ctx, case, adapter, kind, url, expr, ek, form, plain, plain_obs, 
         if after != before:
             ctx.violation(None, "matching changed the record", detail=dict(detail, index=i, diff=observe.first_diff(before, after)))
             plain_obs[i] = after
+        elif raw_state(r) != raw_b:
+            ctx.violation(None, "matching changed the raw state of the record object (instance dict / member identity)",
+                          detail=dict(detail, index=i, record=repr(r)[:200]))
         if exp_exc is not None:
             break
         if keep:
@@ -944,6 +1047,10 @@ def filter_one(ctx, case, adapter, kind, url, expr, ek, form, plain, plain_obs, 
         ctx.violation(None, "only one of {reader with selector, filtering afterwards} raises (%s)" % adapter,
                       detail=dict(detail, reader=repr(got_exc)[:300], afterwards=repr(exp_exc)[:300], yielded=len(got_obs), expected=len(expected)))
     open_forms(ctx, adapter, url, expr, form, detail, plain_obs, ob, expected, exp_exc)
+    if form == "text":
+        url_option_form(ctx, adapter, url, expr, detail, expected, exp_exc, ob, plain_obs)
+    if exp_exc is not None and plain_exc is None:
+        catch_and_continue(ctx, adapter, url, expr, form, detail, plain, plain_obs, ob)
     reiterate(ctx, adapter, url, expr, form, detail)
     ctx.cell(adapter, form, ek)
     ctx.cell("sequence", adapter, kind)
@@ -995,6 +1102,137 @@ def open_forms(ctx, adapter, url, expr, form, detail, plain_obs, ob, expected, e
         ctx.cell("reader-form", adapter, name, form)
 
 
+def url_option_form(ctx, adapter, url, expr, detail, expected, exp_exc, ob, plain_obs):
+    """The selector given as URL query option: RecordReader('<adapter>://<path>?selector=<text>').  Whether an adapter honours
+    the option is observed per source with a selector that keeps nothing ('False'): honoured <=> that read is empty."""
+    import urllib.parse
+
+    from flow.record import RecordReader
+
+    if not expr or not plain_obs:
+        return
+    path = url.split("://", 1)[-1]
+    base = "%s://%s" % (SCHEMES.get(adapter), path)
+
+    def read(text):
+        out = []
+        try:
+            rd = RecordReader(base + "?selector=" + urllib.parse.quote(text, safe=""))
+        except Exception as e:  # noqa: BLE001
+            return out, e
+        try:
+            try:
+                for r in rd:
+                    out.append(r)
+            except Exception as e:  # noqa: BLE001
+                return out, e
+            return out, None
+        finally:
+            try:
+                rd.close()
+            except Exception:  # noqa: BLE001
+                pass
+
+    cache = ctx.state.setdefault("urlopt_cache", {})
+    if cache.get("url") != url:
+        cache.clear()
+        cache["url"] = url
+        none, e0 = read("False")
+        cache["readable"] = e0 is None
+        if e0 is None and len(none) != 0:
+            # observed on HEAD (894c1fc): every adapter's reader honours the option - stream family, jsonfile, avro, csvfile, sqlite
+            ctx.violation(None, "the selector given as URL option '?selector=' is ignored by the reader (%s)" % adapter,
+                          detail=dict(detail, option_selector="False", records_yielded=len(none)))
+    if not cache["readable"]:
+        ctx.event("url_selector_option_source_not_readable:" + adapter)
+        return
+    got, got_exc = read(expr)
+    ctx.event("reader_form:%s:url?selector=" % adapter)
+    ctx.event("url_selector_option_compared")
+    try:
+        got_obs = [ob(r) for r in got]
+    except Exception:  # noqa: BLE001
+        return
+    d = dict(detail, reader_form="url?selector=<text>")
+    if exp_exc is None and got_exc is None:
+        if got_obs != expected:
+            ctx.violation(None, "reading with a selector differs from filtering afterwards (%s, selector as URL option)" % adapter,
+                          detail=dict(d, yielded=len(got_obs), expected=len(expected)))
+    elif (exp_exc is None) != (got_exc is None):
+        ctx.violation(None, "only one of {reader with selector, filtering afterwards} raises (%s, selector as URL option)" % adapter,
+                      detail=dict(d, reader=repr(got_exc)[:300], afterwards=repr(exp_exc)[:300]))
+
+
+def catch_and_continue(ctx, adapter, url, expr, form, detail, plain, plain_obs, ob):
+    """The selector raises on some records; the consumer catches the error and keeps iterating the SAME reader (iter(reader)
+    again).  Where a selector-less reader of this adapter resumes after such a restart (observed per source), the records that
+    come out are exactly those the post-filter keeps when it skips the raising records the same way."""
+    from flow.record import RecordReader
+
+    def drain(rd, limit):
+        out, errors = [], 0
+        it = iter(rd)
+        while errors <= limit:
+            try:
+                out.append(next(it))
+            except StopIteration:
+                break
+            except Exception:  # noqa: BLE001
+                errors += 1
+                it = iter(rd)  # keep going on the same reader
+        return out, errors
+
+    # does a restarted selector-less reader resume where it was?
+    cache = ctx.state.setdefault("resume_cache", {})
+    if cache.get("url") != url:
+        cache.clear()
+        cache["url"] = url
+        try:
+            rd = RecordReader(url)
+            try:
+                it = iter(rd)
+                head = [next(it) for _ in range(min(2, len(plain)))]
+                rest = list(iter(rd))
+            finally:
+                rd.close()
+            cache["resumes"] = [ob(r) for r in head + rest] == plain_obs
+        except Exception:  # noqa: BLE001
+            cache["resumes"] = False
+    if not cache["resumes"]:
+        ctx.event("catch_and_continue_not_resumable:" + adapter)
+        return
+    expected = []
+    raising = 0
+    for i, r in enumerate(plain):
+        try:
+            s = fresh(ctx, form, expr)
+            if (not s) or s.match(r):
+                expected.append(plain_obs[i])
+        except Exception:  # noqa: BLE001
+            raising += 1
+    if not raising:
+        return
+    try:
+        sel_arg = make_form(ctx, form, expr)
+        rd = RecordReader(url, selector=sel_arg)
+    except Exception:  # noqa: BLE001
+        return
+    try:
+        got, errors = drain(rd, len(plain) + 2)
+    finally:
+        try:
+            rd.close()
+        except Exception:  # noqa: BLE001
+            pass
+    ctx.event("catch_and_continue_compared")
+    ctx.event("catch_and_continue:" + adapter)
+    got_obs = [ob(r) for r in got]
+    if got_obs != expected or errors != raising:
+        ctx.violation(None, "catching a selector error and continuing on the same reader loses or repeats records (%s)" % adapter,
+                      detail=dict(detail, yielded=len(got_obs), expected=len(expected), errors_seen=errors, raising_records=raising,
+                                  first_difference=observe.first_diff(expected, got_obs)))
+
+
 def reiterate(ctx, adapter, url, expr, form, detail):
     """Every record a reader opened with selector=S EVER yields satisfies S: a partial first pass, then the same reader object
     iterated again, and again (whatever a second iteration does on this tree - nothing, the rest, or everything once more)."""
@@ -1006,17 +1244,24 @@ def reiterate(ctx, adapter, url, expr, form, detail):
     except Exception:  # noqa: BLE001
         return
     yielded = []  # (pass number, record)
+    # pattern of the first (partial) passes: quick = one partial pass of 2 records; thorough rotates over several patterns
+    # (nothing consumed, 1, 2, half of the source, two partial passes in a row, a complete pass) before the full re-iterations
+    patterns = [(2,)] if ctx.quick else [(0,), (1,), (2,), (5,), (1, 1), (2, 3), (10 ** 6,), (0, 2)]
+    pattern = patterns[ctx.evaluations % len(patterns)]
+    ctx.event("reiterate_pattern:" + "+".join(str(min(k, 999)) for k in pattern))
     try:
         try:
-            it = iter(rd)
-            for _ in range(2):
-                yielded.append((1, next(it)))
-        except StopIteration:
-            pass
+            for k in pattern:
+                it = iter(rd)
+                for _ in range(k):
+                    try:
+                        yielded.append((1, next(it)))
+                    except StopIteration:
+                        break
         except Exception:  # noqa: BLE001 - matching raises on this source: covered by the comparison above
             ctx.event("reiterate_first_pass_raised")
             return
-        for p in (2, 3):
+        for p in (2, 3) if ctx.quick else (2, 3, 4):
             try:
                 for r in rd:
                     yielded.append((p, r))
@@ -1067,6 +1312,7 @@ def run_purity(ctx, case):
     detail = {"expression": expr, "engine": case["engine"], "records": len(pool)}
     n = len(pool)
     before = [observe.obs(r) for r in pool]
+    raw_before = [raw_state(r) for r in pool]
 
     fresh_out = [outcome_of(lambda r=r: cls(expr).match(r)) for r in pool]
     long1 = cls(expr)
@@ -1085,10 +1331,15 @@ def run_purity(ctx, case):
         i = (j + k) % n
         rot[i] = outcome_of(lambda: long3.match(pool[i]))
     after = [observe.obs(r) for r in pool]
+    raw_after = [raw_state(r) for r in pool]
 
     for i in range(n):
         if after[i] != before[i]:
             ctx.violation(None, "matching changed the record", detail=dict(detail, index=i, diff=observe.first_diff(before[i], after[i])))
+            break
+        if raw_after[i] != raw_before[i]:
+            ctx.violation(None, "matching changed the raw state of the record object (instance dict / member identity)",
+                          detail=dict(detail, index=i, diff=observe.first_diff(raw_before[i], raw_after[i]), record=repr(pool[i])[:200]))
             break
     for label, other in (("a second call on the same object", twice), ("a long-lived object in natural order", nat),
                          ("a long-lived object in reversed order", rev), ("a long-lived object in rotated order", rot)):
@@ -1250,7 +1501,7 @@ def run_mutate(ctx, case):
 # ---- oracle: independence of history, including process-wide state -------------------------------------------
 def cold_worker(req):
     p = subprocess.run([sys.executable, "-W", "ignore", "-m", "verif.worker_c10"], input=json.dumps(req), capture_output=True, text=True,
-                       timeout=300, cwd=os.path.dirname(os.path.dirname(os.path.dirname(os.path.abspath(__file__)))))
+                       timeout=1500, cwd=os.path.dirname(os.path.dirname(os.path.dirname(os.path.abspath(__file__)))))
     if p.returncode != 0:
         raise RuntimeError("worker exited with %s: %s" % (p.returncode, p.stderr[-600:]))
     return json.loads(p.stdout)["outcomes"]
@@ -1307,6 +1558,8 @@ def finish(ctx):
     ctx.require(ev["compared_ok"] > 0, "no filter case was compared")
     ctx.require(ev["purity_cases"] > 0, "no purity case ran")
     ctx.require(ev["reiterations"] > 0, "no reader was iterated a second time")
+    ctx.require(ev["url_selector_option_compared"] > 0, "the '?selector=' URL option reader form was never compared")
+    ctx.require(ev["catch_and_continue_compared"] > 0, "no catch-and-continue comparison ran")
     for a in ("stream", "jsonfile", "avro"):
         ctx.require(ev["compared:" + a] < 20 or ev["reader_form:%s:url+fileobj" % a] > 0,
                     "the reader form RecordReader('%s://', fileobj=..., selector=...) was never compared" % a)
